@@ -102,6 +102,9 @@ int main(int argc, char **argv) {
       if (su == 1) setenv("SUDO_USER", "sudoer", 1); else if (su > 1 && su < 4096) { memset(longname, 's', su); longname[su] = 0; setenv("SUDO_USER", longname, 1); }
       if (ln == 1) setenv("LOGNAME", "lognm", 1); else if (ln > 1 && ln < 4096) { memset(longname, 'n', ln); longname[ln] = 0; setenv("LOGNAME", longname, 1); } }
     setenv("TZ", kv(kvs, "tz", "UTC"), 1);
+    /* LOGNAME / SUDO_USER as the LAST strings of the environment: after an exec ("exec2") they sit right below the top of the initial stack,
+       with only the short program path above them - reading a fixed number of bytes from such a value runs off the stack */
+    if (atoi(kv(kvs, "lognamelast", "0"))) { for (int k = 0; k < 2; k++) { const char *nm = k ? "LOGNAME" : "SUDO_USER"; const char *cur = getenv(nm); if (cur) { char *cp = strdup(cur); unsetenv(nm); setenv(nm, cp, 1); free(cp); } } }
     { const char *pw = kv(kvs, "pwd", "none"); char c[PATH_MAX + 64], a[PATH_MAX + 128];
       if (strcmp(pw, "none") && getcwd(c, sizeof c)) {
           if (!strcmp(pw, "exact")) setenv("PWD", c, 1);
